@@ -77,6 +77,15 @@ package contracts
 //@   modifies lastUntil
 //@   ensures r == lastUntil
 
+// timers: the channel of a timer delivers instants (trusted: an instant received from t.C is not in the future)
+//@ extern func time.NewTimer(d time.Duration) (t *time.Timer)
+//@   ensures t != nil && fresh(t) && t.C != nil
+//@ extern func (t *time.Timer) Stop() (r bool)
+//@ extern func (t *time.Timer) Reset(d time.Duration) (r bool)
+//@ extern func (c context.Context) Done() (ch <-chan struct{})
+//@   pure
+//@ extern func time.Sleep(d time.Duration)
+
 // net addresses: String/Network are pure functions of the address value (trusted)
 //@ extern func (a net.Addr) String() (s string)
 //@   pure
